@@ -69,7 +69,16 @@ impl StreamReader {
         }
 
         // 3. buffer 为空，从 channel 接收新数据
-        match self.reader_rx.recv().await {
+        // An empty chunk carries no data; returning 0 for it would look like end of stream
+        // to the caller, so skip to the next chunk (or to the close of the channel)
+        let mut next = self.reader_rx.recv().await;
+        loop {
+            match &next {
+                Some(data) if data.is_empty() => next = self.reader_rx.recv().await,
+                _ => break,
+            }
+        }
+        match next {
             Some(data) => {
                 let data_len = data.len();
                 tracing::debug!(
